@@ -143,7 +143,10 @@ class Env:
                 if ws:
                     ev = {"ev": "warned", "kind": msgs[str(ws[0].message)]}
                 elif out:
-                    ev = {"ev": "printed", "kind": msgs.get(out.rstrip("\n"), "?" + out)}
+                    # an operation may run errcheck more than once (collapse checks the receiver and the result):
+                    # the reaction is judged on the first line
+                    first = out.split("\n")[0]
+                    ev = {"ev": "printed", "kind": msgs.get(first, "?" + out)}
                 elif self.log:
                     i, got = self.log[0]
                     # the callback must receive the offending item itself
@@ -453,6 +456,65 @@ def run(ctx):
                     call = lambda: t.filter(lambda v, i, m: True, axis="observation")
                 ob = env.observe_check(t, ["empty"], call)
                 check_prog(ctx, env, prog, ("real-table", "filter-on-empty", how), obs={"op": "seq", "a": oa, "b": ob})
+    # a callback replaced while 'call' is in force must be the one invoked next time
+    for k in kinds:
+        for scope in ("seterr", "errstate"):
+            inner = {"op": "seq", "a": {"op": "check", "trig": [k]},
+                     "b": {"op": "seq", "a": {"op": "seterrcall", "kind": k, "cb": 2}, "b": {"op": "check", "trig": [k]}}}
+            if scope == "seterr":
+                prog = {"op": "seq", "a": {"op": "seterrcall", "kind": k, "cb": 1},
+                        "b": {"op": "seq", "a": {"op": "seterr", "kw": [[k, "call"]]}, "b": inner}}
+            else:
+                prog = {"op": "seq", "a": {"op": "seterrcall", "kind": k, "cb": 1},
+                        "b": {"op": "errstate", "kw": [["all", "call"]], "body": inner}}
+            check_prog(ctx, env, prog, ("callback-replaced",))
+            # and the same kind triggered twice without any change in between
+            check_prog(ctx, env, {"op": "seq", "a": {"op": "seterrcall", "kind": k, "cb": 3},
+                                  "b": {"op": "seq", "a": {"op": "seterr", "kw": [[k, "call"]]},
+                                        "b": {"op": "seq", "a": {"op": "check", "trig": [k]}, "b": {"op": "check", "trig": [k]}}}},
+                       ("callback-twice",))
+    # further errcheck call sites on real tables: operations whose RESULT is the offending table
+    def site_cases():
+        base = lambda: Table(np.array([[1., 2.], [3., 4.]]), ["a", "b"], ["x", "y"])
+        yield ("update_ids-onto-existing-obs", {"nrows": 2, "ncols": 2, "obs_ids": ["b", "b"], "samp_ids": ["x", "y"],
+                                                "omd_len": None, "smd_len": None},
+               lambda: base().update_ids({"a": "b"}, axis="observation", strict=False, inplace=False))
+        yield ("update_ids-onto-existing-samp", {"nrows": 2, "ncols": 2, "obs_ids": ["a", "b"], "samp_ids": ["y", "y"],
+                                                 "omd_len": None, "smd_len": None},
+               lambda: base().update_ids({"x": "y"}, axis="sample", strict=False, inplace=False))
+        yield ("sort_order-repeated-sample", {"nrows": 2, "ncols": 3, "obs_ids": ["a", "b"], "samp_ids": ["y", "x", "y"],
+                                              "omd_len": None, "smd_len": None},
+               lambda: base().sort_order(["y", "x", "y"], axis="sample"))
+        yield ("sort_order-repeated-observation", {"nrows": 3, "ncols": 2, "obs_ids": ["b", "a", "b"], "samp_ids": ["x", "y"],
+                                                   "omd_len": None, "smd_len": None},
+               lambda: base().sort_order(["b", "a", "b"], axis="observation"))
+        yield ("sort_order-empty-order", {"nrows": 2, "ncols": 0, "obs_ids": ["a", "b"], "samp_ids": [],
+                                          "omd_len": None, "smd_len": None},
+               lambda: base().sort_order([], axis="sample"))
+        yield ("collapse-of-empty-table", {"nrows": 0, "ncols": 0, "obs_ids": [], "samp_ids": [], "omd_len": None, "smd_len": None},
+               lambda: Table(np.zeros((0, 0)), [], []).collapse(lambda i, m: "g", axis="sample"))
+    for label, facts, call in site_cases():
+        trig = ctx.driver.ask({"facts": facts})["firing"]
+        for r in REACTIONS:
+            env.reset()
+            # the table under construction does not exist when the profile is set: build the empty one under ignore
+            kw = [["all", r]]
+            prog = {"op": "seq", "a": {"op": "seterr", "kw": kw}, "b": {"op": "check", "trig": trig}}
+            holder = {}
+            if label.startswith("collapse"):
+                with env.E.errstate(all="ignore"):
+                    empty_t = Table(np.zeros((0, 0)), [], [])
+                call = (lambda et=empty_t: et.collapse(lambda i, m: "g", axis="sample"))
+            oa = env.run(prog["a"])
+            try:
+                ob = env.observe_check(None, trig, call)
+            except Exception as e:      # anything but the table error: the call site misbehaves
+                ob = {"op": "check", "st": env.snap(), "cb": 0, "ev": {"ev": "raised", "kind": "?" + type(e).__name__}}
+            if ob["ev"]["ev"] == "called":
+                fk = [kk for kk in kinds if kk in trig]
+                ob["ev"]["kind"] = fk[0] if fk else "?"
+            ctx.count("site=" + label.split("-")[0])
+            check_prog(ctx, env, prog, ("real-table", "site:" + label), obs={"op": "seq", "a": oa, "b": ob})
     # random nested programs
     n = 2500 if ctx.quick() else 120000
     depth_choices = [1, 2, 2, 3, 3, 4] if ctx.quick() else [2, 3, 3, 4, 5, 6, 8]
